@@ -41,7 +41,8 @@ type Case struct {
 	Moves  []Move  `json:"moves"`
 	Calls  []int   `json:"calls"`
 	CallAt []int   `json:"call_at,omitempty"`
-	Gen    string  `json:"gen"` // how the schedule was produced
+	Gen    string  `json:"gen"`             // how the schedule was produced
+	Crash  string  `json:"crash,omitempty"` // caller-owned memory written by the stage (judged like a crash)
 }
 
 // intent is what the generator wants to try next
@@ -120,7 +121,37 @@ func runCase(t *testing.T, c *Case, sch scheduler, maxMoves int, drain bool, emi
 				}
 			}
 		}
+		// "parked": the producer of every unbuffered input is ALREADY blocked in the send of its first element when the
+		// stage is created (an element that is ready before the stage exists is an element like any other)
+		parked := strings.HasPrefix(c.Gen, "parked") && c.Stage.exx == nil
+		parkAbort := make(chan struct{})
+		parkDone := make([]bool, len(ins))
+		if parked {
+			for i := range ins {
+				if c.ICaps[i] == 0 && len(c.Inputs[i]) > 0 {
+					go func(i int) {
+						select {
+						case ins[i] <- c.Inputs[i][0]:
+							parkDone[i] = true
+						case <-parkAbort:
+						}
+					}(i)
+				}
+			}
+			synctest.Wait()
+		}
 		outs := build(ctx, c.Stage, ins, rec)
+		if parked {
+			synctest.Wait()
+			close(parkAbort) // a producer nobody received from gives up: its send never happened
+			synctest.Wait()
+			for i := range ins {
+				if parkDone[i] {
+					prePos[i]++
+					c.Moves = append(c.Moves, Move{M: "send", I: i, X: c.Inputs[i][0], O: "done"})
+				}
+			}
+		}
 		// a SECOND INSTANCE of the same stage is alive during the whole case, with inputs of its own that nobody feeds
 		// and a context of its own: two instances share nothing, whatever is pooled or cached inside the package
 		var decoyIns []chan int
@@ -346,6 +377,11 @@ func runCase(t *testing.T, c *Case, sch scheduler, maxMoves int, drain bool, emi
 		}
 		c.Calls = append([]int(nil), rec.seen...)
 		c.CallAt = append([]int(nil), rec.at...)
+		for _, f := range rec.memcheck {
+			if msg := f(); msg != "" {
+				c.Crash = msg
+			}
+		}
 		emit() // persisted before the cleanup: a deadlocked bubble or a late panic kills the process
 
 		// cleanup so that the bubble can end: cancel, release gates, close inputs, drain outputs
